@@ -52,8 +52,28 @@ def c09(tier, args):
 
 @check("C14")
 def c14(tier, args):
+    import time as _time
+    t0 = _time.time()
     scs = _filter(scenarios.c14(tier), args)
-    return engine_a.run_scenarios("C14", tier, scs, _deadline(args, 600, 3000, tier))
+    parts, labels = [], []
+    if scs:
+        parts.append(engine_a.run_scenarios("C14", tier, scs, _deadline(args, 600, 3000, tier), finish=False))
+        labels.append("sched")
+    # "additionally every allocation-failure point of C08 on the OLC index": after every faulted operation of every reachable
+    # state the sweep must terminate and no lock word may be left set (engine B, fault mode, olc_db only)
+    us = [u for u in engine_b.all_universes(tier) if not args.only or args.only in u["id"]]
+    if tier == "quick":
+        us = [u for u in us if u["id"] in C08_QUICK_UNIVERSES]
+    if us:
+        parts.append(_seqmc("C14", tier, "dbg", ["--scans", "0", "--views", "0", "--faults", "1"], us, indexes=("olc",),
+                            assertions=True, finish=False))
+        labels.append("seqmc: every allocation-failure point of every operation in every reachable state, olc_db")
+    return merge_and_finish("C14", tier, t0, parts, labels)
+
+
+# the universes that contain every allocation pattern (leaf, leaf + I4, leaf + larger node, smaller node on shrink)
+C08_QUICK_UNIVERSES = {"g2-two-level", "g1-i4-i16", "g3-prefix-split", "g4-leaf-split", "g1-i16-i48", "g1-i48-i256", "kv3-two-level",
+                       "kv-text", "kv-compound"}
 
 
 QSBR_RULE = ("every schedule of each program set (2-4 real threads driving the real QSBR through quiescent / retire / "
@@ -207,11 +227,8 @@ def c08(tier, args):
     if args.only:
         us = [u for u in us if args.only in u["id"]]
     if tier == "quick":
-        # the universes that contain every allocation pattern (leaf, leaf + I4, leaf + larger node, smaller node on shrink)
-        keep = {"g2-two-level", "g1-i4-i16", "g3-prefix-split", "g4-leaf-split", "g1-i16-i48", "g1-i48-i256", "kv3-two-level",
-                "kv-text", "kv-compound"}
-        us = [u for u in us if u["id"] in keep]
-    extra = [dict(binary=build(**QSBR_FAULT_SPEC), args=[], label="qsbr-fault-and-length-limits", build_spec=QSBR_FAULT_SPEC,
+        us = [u for u in us if u["id"] in C08_QUICK_UNIVERSES]
+    extra = [dict(binary=build(**QSBR_FAULT_SPEC), args=["--tier", tier], label="qsbr-fault-and-length-limits", build_spec=QSBR_FAULT_SPEC,
                   source="engines/seqmc/qsbr_fault.cpp", parallel=16)]
     return _seqmc("C08", tier, "dbg", ["--scans", "0", "--views", "0", "--faults", "1"], us, assertions=True, extra_runs=extra)
 
@@ -406,7 +423,7 @@ def c17(tier, args):
 # ---------------------------------------------------------------------------
 # engine C: exhaustive enumeration of the key codec domains
 def codec_binary():
-    return build("codec", ["engines/enum/codec.cpp"], ["-O2"], repo_sources=[])
+    return build("codec", ["engines/enum/codec.cpp"], ["-O2", "-D" + HOOK_GUARD], repo_sources=[])
 
 
 def _codec(prop, tier):
@@ -416,7 +433,7 @@ def _codec(prop, tier):
     args = ["--property", prop, "--tier", "thorough", "--threads", "16"]
     return engine_simple.run_protocol_check(
         prop, tier, [dict(binary=b, args=args, label="codec-" + prop, source="engines/enum/codec.cpp",
-                          build="g++ -std=c++20 -O2 -mavx2 -I/repo codec.cpp")],
+                          build="g++ -std=c++20 -O2 -mavx2 -DUNODB_DETAIL_VERIF_HOOKS -I/repo codec.cpp")],
         "exhaustive enumeration of finite encoder/decoder input domains against independently written reference orders:",
         ["64-bit integers, doubles, long texts and tuples are covered on the stated structured finite domains only",
          "texts contain no interior zero bytes (excluded by the statement)",
